@@ -101,17 +101,50 @@ def boundary_value(inp, rng, addrs, lits, t=None):
     return min(max(v, lo), hi)
 
 
+def fn_source(src, name):
+    """text of `def name(...)` up to the next top-level def/decorator (for per-function literal pools)"""
+    m = re.search(r"^def " + re.escape(name) + r"\(", src, re.M)
+    if not m:
+        return src
+    rest = src[m.end():]
+    n = re.search(r"^(@|def )", rest, re.M)
+    return rest[: n.start()] if n else rest
+
+
+def _sweep_values(inp, lits):
+    """boundary sweep for a scalar integer input: every literal of the function text and its neighbours, clipped to the
+    type, smallest magnitudes first"""
+    m = _INT.match(inp["type"])
+    if not m:
+        return None
+    bits = int(m.group(2))
+    lo, hi = (0, 2 ** bits - 1) if m.group(1) else (-(2 ** (bits - 1)), 2 ** (bits - 1) - 1)
+    c = set()
+    for l in lits:
+        for sgn in ((1, -1) if lo < 0 else (1,)):
+            for d in (-1, 0, 1):
+                c.add(min(max(sgn * l + d, lo), hi))
+    c |= {lo, hi, min(max(0, lo), hi)}
+    return sorted(c, key=lambda v: (abs(v), v))
+
+
 def make_plan(abi, src, rng, addrs, per_fn, n_random):
     lits = source_literals(src)
     fns = [a for a in abi if a["type"] == "function"]
     plan = []
     for fn in fns:
+        flits = source_literals(fn_source(src, fn["name"])) or lits
+        sweeps = [_sweep_values(i, flits) for i in fn["inputs"]]
+        n_sweep = min(max([len(s) for s in sweeps if s] or [0]), per_fn * 4)
         seen = set()
-        for _ in range(per_fn * 3):
-            if len(seen) >= per_fn:
-                break
+        for k in range(per_fn + n_sweep):
             try:
-                vals = [boundary_value(i, rng, addrs, lits) for i in fn["inputs"]]
+                vals = [boundary_value(i, rng, addrs, flits) for i in fn["inputs"]]
+                if k < n_sweep:
+                    # systematic part: the k-th sweep value in every integer position that has one (other positions random)
+                    for j, sw in enumerate(sweeps):
+                        if sw and (k < len(sw)):
+                            vals[j] = sw[k]
                 data = R.selector(fn) + R.encode_args(fn["inputs"], vals)
             except Exception:  # noqa
                 vals, data = None, R.selector(fn)
@@ -230,8 +263,9 @@ def run_program(job):
             ran = {s["pass"] for s in st.snaps if s["changed"]}
             if diff is not None:
                 loc, still, failed = [], [], []
+                first = not any(f["kind"] == "behaviour" for f in res["findings"])
                 for p in names:
-                    if p not in ran:
+                    if p not in ran or not first:      # localise on the first failing level only (cost)
                         continue
                     r = _skip_run(entry, cfg, p, abi, plan, stats)
                     if r is None:
@@ -241,7 +275,7 @@ def run_program(job):
                     else:
                         still.append(p)
                 res["findings"].append({"kind": "behaviour", "level": level, "config": cfg.name, "diff": diff,
-                                        "call": _call_desc(plan, diff.get("call")), "localised_to": loc,
+                                        "call": _call_desc(plan, diff.get("call")), "localised_to": loc, "localisation_run": first,
                                         "skip_does_not_help": still, "skip_does_not_compile": failed,
                                         "plan_prefix": [_call_desc(plan, i) for i in range(min(len(plan), (diff.get("call") or 0) + 1))][-6:]})
             else:
